@@ -261,7 +261,7 @@ theorem depth_eq_sum (ts : List Token) : depth ts = (ts.map weight).sum := by
   | cons t ts ih =>
     simp only [List.map_cons, List.sum_cons, ← ih]
     unfold depth
-    cases t <;> simp [List.count_cons, weight] <;> omega
+    cases t <;> simp [weight] <;> omega
 
 theorem bracket_run_eq (cs : List Char) (ts : List LToken) (h : Lex.all cs = (ts, none)) :
     (Bracket.run cs).2 = depth (ts.map (·.tok)) := by
